@@ -32,6 +32,9 @@ CRS_TABLE = [
     ("eqc_pm180", {"proj": "eqc", "lon_0": 0, "pm": 180, "ellps": "WGS84"}, (-2e6, -1e6, 2e6, 3e6)),
     ("laea_pm_paris", {"proj": "laea", "lat_0": 48, "lon_0": 3, "pm": "paris", "ellps": "WGS84"}, (-3.5e5, -4.5e5, 3.5e5, 4.5e5)),
     ("longlat_pm180", {"proj": "longlat", "pm": 180, "ellps": "WGS84"}, (-20.0, 30.0, 25.0, 60.0)),
+    # datums with a known shift to WGS84: lon/lats of an area are on the area's own datum, in both directions
+    ("gk_potsdam", {"proj": "tmerc", "lat_0": 0, "lon_0": 9, "k": 1, "x_0": 3500000, "y_0": 0, "datum": "potsdam", "units": "m"}, (3.45e6, 5.55e6, 3.4501e6, 5.5501e6)),
+    ("osgb36", "EPSG:27700", (400000.0, 300000.0, 400100.0, 300100.0)),
 ]
 
 
@@ -53,7 +56,7 @@ def _areas(ctx):
         out.append((f"ll_{w}x{h}", _mk(LL, w, h, (-8.0, 16.0, -8.0 + w * 0.5, 16.0 + h * 0.25)), True))
     out.append(("ll_flipped_y", _mk(LL, 4, 3, (-8.0, 17.5, -6.0, 16.0)), True))
     out.append(("ll_flipped_x", _mk(LL, 4, 3, (-6.0, 16.0, -8.0, 17.5)), True))
-    table = CRS_TABLE if not ctx.quick else CRS_TABLE[:6] + CRS_TABLE[8:9] + [ctx.rng.choice(CRS_TABLE[9:])]
+    table = CRS_TABLE if not ctx.quick else CRS_TABLE[:6] + CRS_TABLE[8:9] + [ctx.rng.choice(CRS_TABLE[9:12])] + [ctx.rng.choice(CRS_TABLE[12:])]
     for name, proj, ext in table:
         w, h = r.randrange(2, 9), r.randrange(2, 9)
         out.append((f"{name}_{w}x{h}", _mk(proj, w, h, ext), False))
